@@ -944,8 +944,8 @@ func (fc *FuncCtx) execInstr(fr *Frame, st *State, ins ssa.Instruction) {
 			ref := fc.newRef(st, "new."+clip(x.Comment, 12))
 			if _, isSt := et.Underlying().(*types.Struct); isSt {
 				fc.notePrivate(st, et, ref)
-				fc.freshRefs[ref] = true
 			}
+			fc.freshRefs[ref] = true
 			pl := fc.objPlace(ref, et)
 			fc.zeroInit(st, pl, et, ref)
 			fr.vals[x] = pl
